@@ -199,6 +199,7 @@ func main() {
 	oSched := flag.Int("nsched", -1, "override: number of generated schedules")
 	oConc := flag.Int("nconc", -1, "override: number of concurrent histories (inmem)")
 	oRaft := flag.Int("nraft", -1, "override: number of concurrent histories (raft-backed)")
+	oRest := flag.Int("nrestore", -1, "override: number of concurrent histories with restores and re-opening watchers")
 	flag.Parse()
 
 	if *replay != "" {
@@ -259,6 +260,21 @@ func main() {
 		}
 		for i := 0; i < nRaft; i++ {
 			emit(runConcurrent(rng.Int63(), true))
+		}
+		nRest := 150
+		if *tier == "thorough" {
+			nRest = 1500
+		}
+		if *oRest >= 0 {
+			nRest = *oRest
+		}
+		deadlocks := 0
+		for i := 0; i < nRest && deadlocks < 1; i++ { // goroutines of a deadlocked store stay blocked: stop at the first
+			c := runConcRestore(rng.Int63())
+			if c.Sig != nil && (c.Sig["kind"] == "conc-restore-deadlock" || c.Sig["kind"] == "conc-restore-stalled") {
+				deadlocks++
+			}
+			emit(c)
 		}
 	}
 	w.Flush()
